@@ -35,7 +35,7 @@ TEXT = {
         'design_ref': 'DESIGN.md §4 C06',
     },
     'C10': {
-        'text': 'Partial: the array kernels around the transform, not the transform itself. Verus proves on the extracted text, for any field and every size: poly_eval_monomial == value of the polynomial (Horner == sum a_i x^i), ntt_inv_finish == index reversal + scaling with frame, the in-place interleave of double_evaluations, fp::log2 == ceil(log2), bitrev index range, poly_deg / poly_mul_monomial == coefficient convolution; ntt_internal reports size and capacity violations as the specified errors, accepts exactly the power-of-two sizes within the root table, and all its indices are in range for every size (memory safety + frame).',
+        'text': 'Partial: the array kernels around the transform, not the transform itself. Verus proves on the extracted text, for any field and every size: poly_eval_monomial == value of the polynomial (Horner == sum a_i x^i), ntt_inv_finish == index reversal + scaling with frame, the in-place interleave of double_evaluations, fp::log2 == ceil(log2), bitrev index range, poly_deg / poly_mul_monomial == coefficient convolution == polynomial product, poly_range_check(a,b)(x) == prod (x-i); ntt_internal reports size and capacity violations as the specified errors, accepts exactly the power-of-two sizes within the root table, and all its indices are in range for every size (memory safety + frame).',
         'note': 'NOT decided: forward NTT == evaluation at the powers of the root of unity, inverse undoes forward, barycentric evaluation, extension to a power of two, Lagrange multiplication. A mutation of a butterfly is not detected by this check (DESIGN.md section 4 C10).',
         'technique': 'function contracts with loop invariants on extracted real code over an abstract field (Verus)',
         'design_ref': 'DESIGN.md §4 C10',
